@@ -61,7 +61,7 @@ PROPS = {
     ),
     "C03": dict(
         title="no stuck workflow",
-        theorems={STATUS: ["tbl_succeeded_doors_task", "tbl_failure_covered", "tbl_task_targets_have_events", "tbl_item_targets_have_events", "tbl_failed_request_total", "tbl_leave_active_total", "tbl_quiescent_resolves", "C03_fresh_start_statuses", "C03_fresh_start_statuses_item", "C03_quiescent_report_rests"], ERRORS: ["C11_update_never_raises_expr"]},
+        theorems={STATUS: ["tbl_succeeded_doors_task", "tbl_failure_covered", "tbl_task_targets_have_events", "tbl_item_targets_have_events", "tbl_failed_request_total", "tbl_leave_active_total", "tbl_quiescent_resolves", "C03_fresh_start_statuses", "C03_fresh_start_statuses_item", "C03_quiescent_report_rests", "tbl_resume_unpauses_pausing_task"], ERRORS: ["C11_update_never_raises_expr"]},
         keys=["status", "staged", "sequence"], offers="ids",
         prof=dict(p_template=0.35, templates=[9, 9, 9, 9, 2, 0, 1, 3, 4, 5, 6, 7, 8]),
         hist=dict(p_pause=0.1, p_cancel=0.05, p_rerun=0.4, p_task_pause=0.05, p_lifecycle=0.3, p_lazy_start=0.25, p_odd_terminal=0.2, p_first_pending=0.15, p_early_resume=0.3, p_item_pause=0.04),
@@ -110,7 +110,7 @@ PROPS = {
     "C09": dict(
         title="pause and resume are transparent",
         theorems={STATUS: ["C09_report_while_pausing", "tbl_paused_doors", "tbl_dormant_doors_task",
-                           "tbl_dormant_doors_wf", "tbl_failure_covered"],
+                           "tbl_dormant_doors_wf", "tbl_failure_covered", "tbl_resume_unpauses_pausing_task"],
                   NEXT: ["C09_no_offer_while_pausing_or_paused"],
                   FRAME: ["C09_request_touches_only_statuses", "C09_requests_touch_only_statuses", "C09_request_keeps_record_data"]},
         keys=["status", "staged", "sequence", "errors", "output"], offers="ids",
